@@ -458,6 +458,12 @@ func (eng *Engine) VerifyFunc(fn *ssa.Function, c *Contract) (res *FuncResult) {
 		bind = append(bind, st.freshTyped("fv."+fv.Name(), fv.Type()))
 		st.assume(Neq(bind[len(bind)-1].(Term), TInt(0)))
 	}
+	// captured variables are distinct cells
+	for i := range bind {
+		for j := i + 1; j < len(bind); j++ {
+			st.assume(Neq(bind[i].(Term), bind[j].(Term)))
+		}
+	}
 	fr := x.pushFrame(st, fn, args, bind, 0)
 	fr.contract = c
 	x.paths = 1
@@ -480,6 +486,11 @@ func (eng *Engine) VerifyFunc(fn *ssa.Function, c *Contract) (res *FuncResult) {
 				pre := x.evalEntryBool(st2, cl)
 				x.oblige(st2, clauseName(cl), cl.Props, Not(pre), "explicit panic reached although "+cl.Src)
 			}
+			// onpanic: what must hold (in the state reached) whenever the function panics explicitly
+			for _, cl := range c.ByKind("onpanic") {
+				g := x.evalClauseBool(st2, fr2, cl, nil, 1)
+				x.oblige(st2, clauseName(cl), cl.Props, g, "at an explicit panic: "+cl.Src)
+			}
 			return
 		}
 		res.Returns++
@@ -492,6 +503,11 @@ func (eng *Engine) VerifyFunc(fn *ssa.Function, c *Contract) (res *FuncResult) {
 			st2.assume(x.evalClauseBool(st2, fr2, cl, tvs, -1))
 		}
 		for _, cl := range c.ByKind("ensures") {
+			g := x.evalClauseBool(st2, fr2, cl, tvs, 1)
+			x.oblige(st2, clauseName(cl), cl.Props, g, cl.Src)
+		}
+		// check: postconditions over the function's own locals; proved here, never assumed by callers
+		for _, cl := range c.ByKind("check") {
 			g := x.evalClauseBool(st2, fr2, cl, tvs, 1)
 			x.oblige(st2, clauseName(cl), cl.Props, g, cl.Src)
 		}
